@@ -66,12 +66,16 @@ func (l *Logic) HandleAnnounce(ctx context.Context, req *bittorrent.AnnounceRequ
 // AfterAnnounce does something with the results of an Announce after it has
 // been completed.
 func (l *Logic) AfterAnnounce(ctx context.Context, req *bittorrent.AnnounceRequest, resp *bittorrent.AnnounceResponse) {
-	var err error
+	// A post-hook that fails is passed over: the hooks after it, and above
+	// all the swarm interaction hook at the end of the chain, still run, so
+	// that an announce the client has been answered is applied to the swarm.
 	for _, h := range l.postHooks {
-		if ctx, err = h.HandleAnnounce(ctx, req, resp); err != nil {
-			log.Error("post-announce hooks failed", log.Err(err))
-			return
+		next, err := h.HandleAnnounce(ctx, req, resp)
+		if err != nil {
+			log.Error("post-announce hook failed", log.Err(err))
+			continue
 		}
+		ctx = next
 	}
 }
 
@@ -93,12 +97,13 @@ func (l *Logic) HandleScrape(ctx context.Context, req *bittorrent.ScrapeRequest)
 // AfterScrape does something with the results of a Scrape after it has been
 // completed.
 func (l *Logic) AfterScrape(ctx context.Context, req *bittorrent.ScrapeRequest, resp *bittorrent.ScrapeResponse) {
-	var err error
 	for _, h := range l.postHooks {
-		if ctx, err = h.HandleScrape(ctx, req, resp); err != nil {
-			log.Error("post-scrape hooks failed", log.Err(err))
-			return
+		next, err := h.HandleScrape(ctx, req, resp)
+		if err != nil {
+			log.Error("post-scrape hook failed", log.Err(err))
+			continue
 		}
+		ctx = next
 	}
 }
 
